@@ -3,7 +3,8 @@
 Reads (through Python `ast`, never by importing the package) the literals of
   opendsm/eemeter/models/hourly_caltrack/segmentation.py   _segment_weights_* and the dispatcher of segment_time_series
   opendsm/eemeter/models/hourly_caltrack/model.py          _PredictionSegmentInfo
-  opendsm/eemeter/models/hourly_caltrack/wrapper.py        HourlyModel.segment_type
+  opendsm/eemeter/models/hourly_caltrack/wrapper.py        HourlyModel.segment_type, month_dict, model_month_dict
+  opendsm/eemeter/common/features.py                       fit_temperature_bins(default_bins=[...])
 under vlib.repo_root() and writes coq/Generated/CalTrackTables.v.
 
 Fail-closed: any shape that is not recognised raises TranslatorError (the check reports a broken tie).
@@ -20,6 +21,7 @@ import vlib
 SEG_PY = "opendsm/eemeter/models/hourly_caltrack/segmentation.py"
 MODEL_PY = "opendsm/eemeter/models/hourly_caltrack/model.py"
 WRAP_PY = "opendsm/eemeter/models/hourly_caltrack/wrapper.py"
+FEAT_PY = "opendsm/eemeter/common/features.py"
 OUT = "Generated/CalTrackTables.v"
 
 
@@ -264,6 +266,66 @@ def wrapper_segment_type(tree):
     return vals[0].value
 
 
+def default_bins(tree):
+    """fit_temperature_bins(..., default_bins=[...]): the candidate endpoints every fitted endpoint list is a sub-list of"""
+    fn = _func(tree, "fit_temperature_bins")
+    names = [a.arg for a in fn.args.args]
+    _need("default_bins" in names, "fit_temperature_bins has no default_bins argument")
+    k = names.index("default_bins") - (len(names) - len(fn.args.defaults))
+    _need(k >= 0, "fit_temperature_bins: default_bins has no default")
+    try:
+        vals = ast.literal_eval(fn.args.defaults[k])
+    except ValueError:
+        raise TranslatorError("fit_temperature_bins: default_bins is not a literal")
+    _need(isinstance(vals, (list, tuple)) and len(vals) >= 1, "fit_temperature_bins: default_bins is not a non-empty list")
+    out = []
+    for v in vals:
+        _need(isinstance(v, (int, float)) and not isinstance(v, bool) and v == v and abs(v) < 1e6,
+              "fit_temperature_bins: candidate endpoint %r is not a finite number" % (v,))
+        out.append(v)
+    return out
+
+
+def wrapper_month_keys(tree):
+    """wrapper.py: month_dict (abbreviation -> month number) and the expression that picks, from a fitted segment's name,
+    the abbreviation of the month its uncertainty figures are filed under:
+        {k.replace(A, B).split(SEP)[I]: k for k in self.model_metrics.keys()}"""
+    md = [n for n in tree.body if isinstance(n, ast.Assign) and len(n.targets) == 1 and isinstance(n.targets[0], ast.Name)
+          and n.targets[0].id == "month_dict"]
+    _need(len(md) == 1, "wrapper.py: expected one module-level month_dict")
+    d = ast.literal_eval(md[0].value)
+    _need(isinstance(d, dict) and all(isinstance(k, str) and isinstance(v, int) and not isinstance(v, bool) for k, v in d.items()),
+          "wrapper.py: month_dict is not a literal {str: int}")
+    comps = [n for n in ast.walk(tree) if isinstance(n, ast.Assign) and len(n.targets) == 1 and isinstance(n.targets[0], ast.Name)
+             and n.targets[0].id == "model_month_dict"]
+    _need(len(comps) == 1 and isinstance(comps[0].value, ast.DictComp), "wrapper.py: expected one model_month_dict = {...} comprehension")
+    dc = comps[0].value
+    _need(len(dc.generators) == 1 and not dc.generators[0].ifs and isinstance(dc.generators[0].target, ast.Name),
+          "wrapper.py: model_month_dict: unexpected comprehension")
+    k = dc.generators[0].target.id
+    _need(isinstance(dc.value, ast.Name) and dc.value.id == k, "wrapper.py: model_month_dict values are not the segment names")
+    it = dc.generators[0].iter
+    _need(isinstance(it, ast.Call) and isinstance(it.func, ast.Attribute) and it.func.attr == "keys"
+          and isinstance(it.func.value, ast.Attribute) and it.func.value.attr == "model_metrics",
+          "wrapper.py: model_month_dict does not iterate over model_metrics.keys()")
+    e = dc.key
+    ok = (isinstance(e, ast.Subscript) and isinstance(e.slice, ast.Constant) and isinstance(e.slice.value, int)
+          and not isinstance(e.slice.value, bool) and e.slice.value >= 0
+          and isinstance(e.value, ast.Call) and isinstance(e.value.func, ast.Attribute) and e.value.func.attr == "split"
+          and len(e.value.args) == 1 and not e.value.keywords and isinstance(e.value.args[0], ast.Constant)
+          and isinstance(e.value.args[0].value, str) and len(e.value.args[0].value) == 1)
+    _need(ok, "wrapper.py: model_month_dict key is not <expr>.split(<one character>)[<index>]")
+    idx, sep = e.slice.value, e.value.args[0].value
+    r = e.value.func.value
+    ok = (isinstance(r, ast.Call) and isinstance(r.func, ast.Attribute) and r.func.attr == "replace" and len(r.args) == 2
+          and not r.keywords and all(isinstance(a, ast.Constant) and isinstance(a.value, str) for a in r.args)
+          and isinstance(r.func.value, ast.Name) and r.func.value.id == k and len(r.args[0].value) >= 1)
+    _need(ok, "wrapper.py: model_month_dict key is not k.replace(<str>, <str>).split(...)[...]")
+    # the loop that files the figures: month_n = month_dict[month_abbr]; meter_data[meter_data["month"] == month_n];
+    # self._autocorr_unc_vars[month_n] = {... self.model_metrics[model_key] ...}
+    return {"month_dict": list(d.items()), "replace": (r.args[0].value, r.args[1].value), "sep": sep, "index": idx}
+
+
 def extract():
     """-> dict with everything the Coq file states (also used by harness/c18.py as the regenerated tables)"""
     seg = _parse(SEG_PY)
@@ -274,6 +336,8 @@ def extract():
         "tables": {typ: tables[fname] for typ, fname in disp.items()},
         "prediction_info": prediction_info(_parse(MODEL_PY)),
         "wrapper_segment_type": wrapper_segment_type(_parse(WRAP_PY)),
+        "default_bins": default_bins(_parse(FEAT_PY)),
+        "wrapper_month_keys": wrapper_month_keys(_parse(WRAP_PY)),
     }
 
 
@@ -294,10 +358,11 @@ def render(ex):
     L = ["(* GENERATED on every run by harness/translate_caltrack.py from",
          "     %s (_segment_weights_*, segment_time_series)" % SEG_PY,
          "     %s (_PredictionSegmentInfo)" % MODEL_PY,
-         "     %s (HourlyModel.segment_type)" % WRAP_PY,
+         "     %s (HourlyModel.segment_type, month_dict, model_month_dict)" % WRAP_PY,
+         "     %s (fit_temperature_bins default_bins)" % FEAT_PY,
          "   Do not edit. A segment is (name, explicit (month, weight) entries, weight of every other month);",
          "   segments are listed in DataFrame column order. *)",
-         "From Coq Require Import ZArith QArith List String.",
+         "From Coq Require Import ZArith QArith List String Ascii PrimFloat.",
          "Import ListNotations.",
          "",
          "Definition seg : Type := (string * list (Z * Q) * Q)%type.",
@@ -324,6 +389,20 @@ def render(ex):
     L.append("")
     L.append("(* the segment type the HourlyModel wrapper fits with *)")
     L.append("Definition wrapper_segment_type : string := %s." % vlib.coq_string(ex["wrapper_segment_type"]))
+    L.append("")
+    L.append("(* fit_temperature_bins: the candidate bin endpoints (the same numbers as rationals and as binary64) *)")
+    L.append("Definition default_bins : list Q := %s." % vlib.coq_list([vlib.qlit(Fraction(v)) for v in ex["default_bins"]]))
+    L.append("Definition default_bins_f : list float := %s." % vlib.coq_list([vlib.fhex(float(v)) for v in ex["default_bins"]]))
+    L.append("")
+    wk = ex["wrapper_month_keys"]
+    L.append("(* HourlyModel.fit, uncertainty figures: month_dict, and k.replace(A, B).split(SEP)[I] *)")
+    L.append("Definition wrapper_month_dict : list (string * Z) := %s." % vlib.coq_list(
+        ["(%s, %s)" % (vlib.coq_string(a), vlib.zlit(n)) for a, n in wk["month_dict"]]))
+    L.append("Definition wrapper_key_replace : string * string := (%s, %s)." % (vlib.coq_string(wk["replace"][0]),
+                                                                              vlib.coq_string(wk["replace"][1])))
+    _need(32 <= ord(wk["sep"]) < 127 and wk["sep"] != '"', "wrapper.py: separator %r is not a plain character" % wk["sep"])
+    L.append('Definition wrapper_key_sep : ascii := "%s"%%char.' % wk["sep"])
+    L.append("Definition wrapper_key_index : nat := %d." % wk["index"])
     L.append("")
     return "\n".join(L)
 
